@@ -264,6 +264,11 @@ def RegState.declClass (s : RegState) (d : ClassDecl) : RegState × Except DeclE
   let symGiven : Bool := match sym with | some x => !x.isEmpty | none => false
   if d.refUnitName && !symGiven then (s, .error .assertion)
   else if d.quantum.isSome && !symGiven then (s, .error .assertion)
+  -- `ClassWithDefinitionMeta.__new__`: every element of the definition must be
+  -- a quantity type (a numeric factor is rejected, before any unit is created)
+  else if (match defineAs with
+           | some t => t.any fun it => match it.1 with | .num _ => true | .atom _ => false
+           | none => false) then (s, .error .assertion)
   else
     let cid := s.classes.length
     let normDef : Items := match normCls with
